@@ -78,6 +78,8 @@ PROPS["C08"] = {
         "HashMap::retain / values().filter().flat_map().collect() / iter().filter().cloned().collect() have their std meaning, stated over the lifted closure predicates",
         "chrono::DateTime<Utc> is a totally ordered instant; Utc::now() is the shared monotone clock, far from i64 overflow; + Duration::seconds(300) is exact",
         "uuid::Uuid::new_v4() is fresh with respect to ids already in the lease file",
+        "holder side (F40): Rust drops the local that holds the LeaseRenewal guard on every exit of compact_l0 / compact_level (language semantics: early `?` returns, panics, a dropped future); tokio cancels an aborted task at its next await. Proved: the guard's drop and abort request the abort, and spawn_lease_renewal hands out the guard, not a bare JoinHandle",
+        "holder side: the renewal loop's behaviour after a failed renew_lease is known finding F41 (probe); the 120 s cadence is proved to lie strictly inside the 300 s TTL, scheduling delay is not modelled",
         "object-store backend: other nodes follow the same protocol (every version of the lease file they write satisfies the invariant); conditional PUT succeeds only if the ETag is the one returned by the load of the same attempt, atomically",
     ],
 }
